@@ -320,6 +320,7 @@ def build(root: str | os.PathLike[str], kind: str, api: str, out_dir: str | os.P
     try:
         with warnings.catch_warnings(record=True) as w, ctx as log:
             warnings.simplefilter("always")
+            res.log = log        # kept also when the build raises: the writer calls made so far are evidence
             if api == "hook":
                 with env(cwd=root):
                     if kind == "wheel":
